@@ -12,6 +12,19 @@ TRUSTED_BASE = [
     "Vec / slice / mem::take / binary_search, Python list / bisect, CPython refcount macros behave as documented; key ordering is a lawful total order",
 ]
 
+PY_TIES = [
+    "BPT.TiePy.py_min_capacity", "BPT.TiePy.py_ctor_rejects_eq",
+    "BPT.TiePy.py_leaf_is_full_eq", "BPT.TiePy.py_branch_is_full_eq", "BPT.TiePy.py_leaf_is_underfull_eq", "BPT.TiePy.py_branch_is_underfull_eq",
+    "BPT.TiePy.py_leaf_can_donate_eq", "BPT.TiePy.py_branch_can_donate_eq", "BPT.TiePy.py_leaf_split_mid_eq", "BPT.TiePy.py_branch_split_mid_eq",
+    "BPT.TiePy.py_get_checks_presence_eq", "BPT.TiePy.py_empty_shortcut_leaf_only_eq", "BPT.TiePy.py_len_iterative_eq",
+] + ["BPT.TiePy.%s_eq" % n for n in (
+    "py_leaf_split_shape py_leaf_split_side py_leaf_split_ret py_branch_split_shape py_branch_insert_shape py_leaf_find_position py_branch_find_child "
+    "py_insert_into_leaf_tests py_delete_tests py_underflow_tests py_underflow_calls py_merge_guards py_merge_totals py_merge_side_tests "
+    "py_redistribute_from_left_sep py_redistribute_from_right_sep py_leafnode_borrow_from_left py_leafnode_borrow_from_right py_leafnode_merge_with_right "
+    "py_branchnode_borrow_from_left py_branchnode_borrow_from_right py_branchnode_merge_with_right py_get_return py_items_tests py_items_for "
+    "py_find_position_in_leaf_tests py_sorted_fast_test py_sorted_fast_body py_setitem_shape py_api_pop py_api_popitem py_api_setdefault py_api_copy "
+    "py_api_clear py_api_getitem py_api_contains py_api_delitem py_api_bool").split()]
+
 # suites: name -> dict(kind, args per tier)
 #   kind "rust": bpt-harness gen <suite> ...
 PROPS = {
@@ -250,5 +263,62 @@ PROPS = {
         ],
         "nontrivial": "each case builds a valid multi-level map, injects ONE precise kind of damage (14 kinds: unsorted, duplicate, count mismatch, over capacity, underfull, emptied node, key outside interval, arity, dangling child, chain skip / truncate / misorder / dangling, orphan allocated leaf) at a generated node/position and runs every validator plus try_insert/try_remove; non-trivial when the damage applied to a map with a branch root; distinct = distinct op-line sequences; the per-kind counts are under structural_events",
         "trusted_extra": ["chain damage (skip / truncate / misorder / dangling) and orphan nodes being rejected by the detailed validators is decided by the oracle on every damaged map and by the model/implementation correspondence of the validators; the Lean theorem covers the node-level kinds and gives the conjunction the detailed stages establish (`detailed_sound_partial`), not yet the derivation 'chain visits exactly the reachable leaves in order'"],
+    },
+    "C07": {
+        "title": "Python BPlusTreeMap behaves like dict for every call history",
+        "module": "BPT.Props.C07",
+        "tags": ["C07"],
+        "theorems": [
+            "BPT.Props.C07.step_refines", "BPT.Props.C07.run_refines", "BPT.Props.C07.refines_dict",
+            "BPT.Props.C07.capacity_guard", "BPT.Props.C07.get_returns_stored", "BPT.Props.C07.get_default_iff_absent",
+            "BPT.Props.C07.popitem_removes_smallest", "BPT.Props.C07.abs_strictly_ascending", "BPT.Props.C07.copy_same_contents",
+            "BPT.Props.C07.Legacy.get_none_returns_default",
+            "BPT.Py.insertRec_spec", "BPT.Py.deleteRec_spec", "BPT.Py.handleUnderflow_spec",
+            "BPT.Py.setitem_spec", "BPT.Py.delitem_spec", "BPT.Py.findRec_spec", "BPT.Py.len_spec", "BPT.Py.items_spec",
+            "BPT.Py.firstEntry_spec", "BPT.Py.update_spec", "BPT.Py.step_spec",
+        ],
+        "ties": PY_TIES,
+        "suites": [
+            {"kind": "py", "suite": "py-ops", "quick": {"cases": 80, "len": 80}, "thorough": {"cases": 3000, "len": 120}},
+            {"kind": "py", "suite": "py-deep", "quick": {"cases": 1, "len": 200}, "thorough": {"cases": 6, "len": 2000}},
+        ],
+        "nontrivial": "a py-ops case is non-trivial when the tree grew beyond a single leaf and at least one deletion succeeded; a py-deep case when the tree has at least 1000 leaves (len / bool / popitem / iteration at scale); keys in 5 representations (int, str, tuple, float, user-defined class), values include None; distinct = distinct op-line sequences",
+        "trusted_extra": ["'len works for any number of entries' is a statement about the interpreter stack: the translator checks that __len__ is a loop calling no recursive helper (tie py_len_iterative_eq) and py-deep calls len() on trees with thousands of leaves; the model's len is total",
+                          "copy independence of the real objects (no shared nodes) is checked by the harness; in the purely functional model it holds by construction"],
+    },
+    "C08": {
+        "title": "Python iteration is sorted and complete; range(a, b) is exactly [a, b)",
+        "module": "BPT.Props.C08",
+        "tags": ["C08"],
+        "theorems": [
+            "BPT.Props.C08.items_eq_filter", "BPT.Props.C08.items_all", "BPT.Props.C08.keys_eq", "BPT.Props.C08.values_eq",
+            "BPT.Props.C08.empty_or_inverted", "BPT.Props.C08.mem_items_iff", "BPT.Props.C08.chain_is_leaves",
+            "BPT.Props.C08.items_after_history",
+            "BPT.Py.items_spec", "BPT.Py.chain_spec", "BPT.Py.routeLeaf_spec", "BPT.Py.chainFrom_suffix", "BPT.Props.C07.refines_dict",
+        ],
+        "ties": PY_TIES,
+        "suites": [
+            {"kind": "py", "suite": "py-range", "quick": {"cases": 60, "len": 80}, "thorough": {"cases": 2500, "len": 120}},
+        ],
+        "nontrivial": "a case is non-trivial when the tree grew beyond a single leaf and both an empty and a non-empty bounded scan occurred; endpoints are drawn from present keys, absent keys, below-min / above-max sentinels and None; distinct = distinct op-line sequences",
+    },
+    "C09": {
+        "title": "Python tree keeps B+ tree invariants; bulk load equals incremental build",
+        "module": "BPT.Props.C09",
+        "tags": ["C09"],
+        "theorems": [
+            "BPT.Props.C09.step_inv", "BPT.Props.C09.reachable_inv", "BPT.Props.C09.capacity_guard",
+            "BPT.Props.C09.all_leaves_same_depth", "BPT.Props.C09.root_branch_two_children", "BPT.Props.C09.node_clauses",
+            "BPT.Props.C09.chain_is_leaves",
+            "BPT.Py.insertRec_spec", "BPT.Py.deleteRec_spec", "BPT.Py.handleLeaf_spec", "BPT.Py.handleBranch_spec",
+            "BPT.Py.setitem_spec", "BPT.Py.delitem_spec", "BPT.Py.clear_spec", "BPT.Py.pinv_new",
+        ],
+        "ties": PY_TIES,
+        "suites": [
+            {"kind": "py", "suite": "py-ops", "quick": {"cases": 80, "len": 80}, "thorough": {"cases": 3000, "len": 120}},
+            {"kind": "py", "suite": "py-exh", "quick": {"cases": 300, "len": 3}, "thorough": {"cases": 4000, "len": 4}},
+        ],
+        "nontrivial": "a case is non-trivial when the tree grew beyond a single leaf and at least one deletion succeeded; the independent structural walk (incl. chain = leaves in order) runs after every mutation and the full structural dump is compared with the model; py-exh enumerates every set/del history of the given depth over 3 keys in the middle of a multi-leaf tree at capacities 4, 5, 6; from_sorted_items cases compare contents and shape with an incremental build; distinct = distinct op-line sequences",
+        "trusted_extra": ["from_sorted_items (the bulk-load fast path through the cached rightmost leaf) is decided by the oracle (contents and shape vs an incremental build, invariants) and by the model/implementation correspondence of `fromsorted`; its Lean theorem is not proved yet"],
     },
 }
